@@ -561,10 +561,30 @@ def run(facts, res):
                     if t.impl_adt == "datastorage::DataStorage" and t.local_ty(0) == "bool":
                         preds.add(t.path)
     res.floor("A5", "availability predicates used by the Ready check", len(preds), 1)
+    SPECIAL = ("is_deleted", "is_resolved", "is_empty", "is_charcode")     # revisions that carry no stored object
     for pp in sorted(preds):
         pb = facts.body(pp)
         du = du_of(pb)
         n_true = 0
+        # A5b: "available" means stored: whatever the predicate consults, it does not answer from state that is lost when the replica is
+        # reopened - the object stage (values not packed yet, or left behind by a dropped object) and the LRU object cache. A block whose
+        # object is only there is applied by this replica and held back by a replica reopened on the same storage.
+        vol = []
+        for mb_ in [pb] + [facts.body(q) for q in cg.reach(pb) if facts.body(q) is not None and facts.body(q).impl_adt == "datastorage::DataStorage"]:
+            for bi_, t_ in mb_.calls():
+                if t_.callee is None or not t_.args or t_.callee.name not in ("get", "peek", "contains", "contains_key", "get_mut", "get_key_value"):
+                    continue
+                fp_ = field_path(arg_term(mb_, t_, 0, 16))[0]
+                for f_ in ("stage", "cache"):
+                    if f_ in fp_:
+                        vol.append((f_, mb_, t_))
+        res.instance("A5", "%s consults only the object index (look-ups of the stage / the cache reachable from it: %s)" % (
+            pp, sorted({f_ + " in " + mb_.path.split("::")[-1] for f_, mb_, _ in vol})), pb.loc())
+        for f_ in sorted({f_ for f_, _, _ in vol}):
+            mb_, t_ = [(m2, t2) for f2, m2, t2 in vol if f2 == f_][0]
+            res.violation("A5", "%s|answers-from-volatile-state:%s" % (pp, f_),
+                          "%s can answer `available` from the %s (%s): an object that is in no stored pack makes a block Ready on this replica, and "
+                          "the same block stays Blocked on a replica reopened on the same storage" % (pp, "object stage" if f_ == "stage" else "object cache", mb_.path), mb_.loc(t_.line))
         for bi, st in assigns_of_return(pb):
             t = du.rvalue_term(st.rv, 10)
             if t[0] == "const" and t[1] == "bool":
@@ -579,7 +599,22 @@ def run(facts, res):
                             ok = True
                         if l.kind == "call" and callee_name(l.term) == "is_ok" and l.truth is True and contains_call(l.term[2][0], "read_object", R.name("obj_reader")):
                             ok = True
-                    res.instance("A5", "%s returns true under index membership / verified read: %s" % (pp, ok), pb.loc(st.line))
+                        if l.kind == "call" and callee_name(l.term) in SPECIAL and l.truth is True and l.term[2] and peel(l.term[2][0])[0] == "param":
+                            ok = True       # a revision without a stored object
+                    if not ok:
+                        # `a || b || c`: the `true` block is a join of several true-edges; every edge into it must be one of the accepted tests
+                        ins_ = []
+                        for pr_ in cfg_of(pb).block_preds(bi):
+                            pl_ = [l for l in lits_of(pb, pr_, facts) if not l.implied]
+                            ins_.append(pl_[-1] if pl_ else Lit("other", ("cut",)))
+                        def _acc(l):
+                            if l.kind != "call" or l.truth is not True or not l.term[2]:
+                                return False
+                            n_ = callee_name(l.term)
+                            return (n_ in SPECIAL and peel(l.term[2][0])[0] == "param") or \
+                                (n_ == "contains_key" and "committed_objects" in field_path(l.term[2][0])[0])
+                        ok = bool(ins_) and all(_acc(l) for l in ins_)
+                    res.instance("A5", "%s returns true under index membership / verified read / a revision without stored object: %s" % (pp, ok), pb.loc(st.line))
                     if not ok:
                         res.violation("A5", "%s|unconditional-true" % pp, "%s returns true without index membership or a verified read" % pp, pb.loc(st.line))
             else:
@@ -594,7 +629,8 @@ def run(facts, res):
             if t.dest is not None and t.dest.local == 0 and not t.dest.proj and t.callee is not None:
                 n_true += 1
                 ct = du.call_term(t, bi, 12)
-                ok = t.callee.name in ("is_ok", "contains_key", "is_some") and contains_call(ct, "read_object", R.name("obj_reader"), "contains_key")
+                ok = (t.callee.name in ("is_ok", "contains_key", "is_some") and contains_call(ct, "read_object", R.name("obj_reader"), "contains_key")) or \
+                    (t.callee.name in SPECIAL and ct[2] and peel(ct[2][0])[0] == "param")
                 res.instance("A5", "%s returns %s" % (pp, fmt(ct, 4)), pb.loc(t.line))
                 if not ok:
                     res.violation("A5", "%s|unrecognised-result" % pp, "%s returns %s, not a membership / verified-read result" % (pp, fmt(ct, 4)), pb.loc(t.line))
